@@ -12,7 +12,11 @@ running the loop to quiescence:
                          2 inside the body frame)
   ["C", r]               task r .cancel()
   ["A", dt]              virtual time advances dt ticks (1/4096 s)
-  ["PC"] / ["PE"]        peer resets / peer half-closes (FIN)
+  ["PC"] / ["PE"]        peer resets / peer half-closes (FIN);  ["PE", 1] / ["PC", 1]: the same while request bytes
+                         are still UNSENT in the transport's write buffer (the accessory stopped reading):
+                         asyncio then defers connection_lost after close() until the buffer drains (never,
+                         here); an RST clears the buffer and is immediate.  Same model event.
+  ["LC", v, 1]           local close while request bytes are still unsent in the write buffer
   ["LC", v]              the connection is closed LOCALLY by another task while callers are in flight / queued:
                          the driver task awaits connection.close() (v even) or pairing.close() (v odd)
 
@@ -29,6 +33,8 @@ Oracle (independent of the model, computed from what the accessory side and the 
   response-delivered-twice
   not-abandoned-after-cancel | -timeout   a written request was cancelled / is 30 s old and the transport is still open
   pending-after-abandon    a caller still pending at the end of the step in which the transport closed
+  pending-after-peer-eof   the same when the step was the peer's FIN (with or without unsent request bytes)
+  pending-after-local-close-unsent  local close with unsent request bytes (connection_lost is deferred by asyncio)
   pending-after-local-close  the same when the step was a local close() by another task (the caller is left to its
                            own 30 s timer = hang on a connection that no longer exists)
   write-after-abandon      request bytes written after the transport was abandoned
@@ -92,6 +98,150 @@ def _classify(fn_result=None, exc=None):
         return "resp%d" % body["n"]
     except Exception as e:  # noqa
         return "other:badresp:" + type(e).__name__
+
+
+_BUF = {}
+
+
+def buf_loop():
+    """vloop.VLoop / MemTransport extended (in this file only) by a SEND BUFFER that may hold unsent bytes,
+    as CPython's _SelectorTransport does: close() with a non-empty buffer sets closing but schedules
+    connection_lost only once the buffer has drained (never, when the peer stopped reading); _force_close
+    (RST, fatal error) clears the buffer and loses the connection at once.  `closing_tick` = the tick at
+    which the transport started closing (the observable "transport closed")."""
+    if _BUF:
+        return _BUF
+    import vloop
+
+    class BufTransport(vloop.MemTransport):
+        def __init__(self, loop, protocol, sock):
+            super().__init__(loop, protocol, sock)
+            self.unsent = 0
+            self.closing_tick = None
+
+        def _note(self):
+            if self.closing_tick is None:
+                self.closing_tick = self._loop.ticks
+
+        def get_write_buffer_size(self):
+            return self.unsent
+
+        def close(self):
+            if self._closing:
+                return
+            self._closing = True
+            self.closed_by = self.closed_by or "client"
+            self._note()
+            if not self.unsent:
+                self._schedule_lost(None)
+
+        def _force_close(self, exc):
+            if self._conn_lost:
+                return
+            self.unsent = 0
+            self._note()
+            super()._force_close(exc)
+
+    class BufLoop(vloop.VLoop):
+        async def create_connection(self, protocol_factory, host=None, port=None, *, sock=None, **kw):
+            import errno
+            if not isinstance(sock, vloop.FakeSock):
+                raise OSError(errno.ENETUNREACH, "BufLoop: only scripted connections exist")
+            protocol = protocol_factory()
+            transport = BufTransport(self, protocol, sock)
+            waiter = self.create_future()
+
+            def made():
+                protocol.connection_made(transport)
+                if not waiter.done():
+                    waiter.set_result(None)
+            self.call_soon(made)
+            await waiter
+            sock.net._opened(transport)
+            return transport, protocol
+
+    def run(main_factory):
+        loop = BufLoop()
+        asyncio.set_event_loop(loop)
+        try:
+            return loop.run_until_complete(main_factory(loop)), loop
+        finally:
+            try:
+                pending = [t for t in asyncio.all_tasks(loop) if not t.done()]
+                for t in pending:
+                    t.cancel()
+                if pending:
+                    try:
+                        loop.run_until_complete(asyncio.gather(*pending, return_exceptions=True))
+                    except vloop.Stalled:
+                        pass
+            finally:
+                asyncio.set_event_loop(None)
+                loop.close()
+    _BUF.update(BufTransport=BufTransport, BufLoop=BufLoop, run=run)
+    return _BUF
+
+
+def buf_selftest():
+    """the send-buffer contract of BufTransport against a real socketpair transport (peer not reading)"""
+    import socket
+
+    import vloop
+
+    class P(asyncio.Protocol):
+        def __init__(self):
+            self.ev = []
+
+        def connection_made(self, t):
+            self.ev.append("made")
+
+        def eof_received(self):
+            self.ev.append("eof")
+            return False
+
+        def connection_lost(self, exc):
+            self.ev.append("lost")
+
+    def real(sc):
+        async def main():
+            loop = asyncio.get_running_loop()
+            a, b = socket.socketpair()
+            a.setblocking(False)
+            a.setsockopt(socket.SOL_SOCKET, socket.SO_SNDBUF, 4096)
+            p = P()
+            tr, _ = await loop.create_connection(lambda: p, sock=a)
+            tr.write(b"x" * (8 << 20))
+            unsent = tr.get_write_buffer_size() > 0
+            if sc == "fin_unsent":
+                b.shutdown(socket.SHUT_WR)
+            else:
+                tr.close()
+            for _ in range(10):
+                await asyncio.sleep(0.005)
+            out = (p.ev[:], tr.is_closing(), unsent)
+            tr.abort()
+            b.close()
+            await asyncio.sleep(0)
+            return out
+        return asyncio.run(main())
+
+    def virt(sc):
+        async def main(loop):
+            net = vloop.Net(loop, [("connect", 0)])
+            sock = await net.start_connection([(socket.AF_INET, 0, 0, "h", ("1.2.3.4", 80))])
+            p = P()
+            tr, _ = await loop.create_connection(lambda: p, sock=sock)
+            tr.write(b"x" * 100)
+            tr.unsent = 50
+            if sc == "fin_unsent":
+                tr.peer_fin()
+            else:
+                tr.close()
+            for _ in range(10):
+                await asyncio.sleep(0.005)
+            return (p.ev[:], tr.is_closing(), tr.get_write_buffer_size() > 0)
+        return buf_loop()["run"](main)[0]
+    return [(sc, real(sc) == virt(sc), real(sc), virt(sc)) for sc in ("fin_unsent", "close_unsent")]
 
 
 def tok(o):
@@ -177,7 +327,7 @@ def run_impl(hist, cap=1):
             await settle()
             t0[0] = loop.ticks
             del log[:]
-            ntrace = [len(net.trace)]
+            ntrace = [0]           # 'transport closed' already reported
             nxt = 0
             tail = b""          # undelivered rest of a message whose prefix was delivered by "F"
             tail_msg = None
@@ -195,10 +345,9 @@ def run_impl(hist, cap=1):
 
             def collect():
                 out = [tok(o) for o in log]
-                for tr_ev in net.trace[ntrace[0]:]:
-                    if tr_ev[1] == "closed" and tr_ev[2] == tr.cid:
-                        out.append("x@%d" % (tr_ev[0] - t0[0]))
-                ntrace[0] = len(net.trace)
+                if tr.closing_tick is not None and not ntrace[0]:
+                    ntrace[0] = 1
+                    out.append("x@%d" % (tr.closing_tick - t0[0]))
                 del log[:]
                 return out
 
@@ -259,10 +408,16 @@ def run_impl(hist, cap=1):
                 elif k == "A":
                     await vloop.sleep_ticks(ev[1])
                 elif k == "PC":
+                    if len(ev) > 1 and ev[1] and not tr.is_closing():
+                        tr.unsent = 4096          # RST while request bytes are still unsent
                     tr.peer_reset()
                 elif k == "PE":
+                    if len(ev) > 1 and ev[1] and not tr.is_closing():
+                        tr.unsent = 4096          # the accessory stopped reading, then half-closes
                     tr.peer_fin()
                 elif k == "LC":
+                    if len(ev) > 2 and ev[2] and not tr.is_closing():
+                        tr.unsent = 4096          # local close while request bytes are still unsent
                     if ev[1] % 2 == 0:
                         await conn.close()
                     else:
@@ -287,7 +442,7 @@ def run_impl(hist, cap=1):
         finally:
             undo1()
             undo2()
-    res, _ = vloop.run(main)
+    res, _ = buf_loop()["run"](main)
     return res
 
 
@@ -371,9 +526,13 @@ def oracle(hist, res):
                     bad.append(("not-abandoned-after-timeout",
                                 f"step {i}: request {r} written at {wt} still pending at {stp['now']} (>= 30 s)"))
             if stp["closing"] and stp["pending"] and ev[0] == "LC":
-                bad.append(("pending-after-local-close",
+                bad.append(("pending-after-local-close" + ("-unsent" if len(ev) > 2 and ev[2] else ""),
                             f"step {i}: connection closed locally (close() by another task) but callers {stp['pending']} are "
                             f"still pending; they are only released by their own 30 s timers"))
+            elif stp["closing"] and stp["pending"] and ev[0] == "PE":
+                bad.append(("pending-after-peer-eof",
+                            f"step {i}: the peer half-closed (FIN{' with request bytes still unsent' if len(ev) > 1 and ev[1] else ''}) "
+                            f"but callers {stp['pending']} are still pending; they are only released by their own 30 s timers"))
             elif stp["closing"] and stp["pending"]:
                 bad.append(("pending-after-abandon",
                             f"step {i} ({ev[0]}): transport closed but callers {stp['pending']} are still pending"))
@@ -490,6 +649,10 @@ def gen_exhaustive(drv, cap, depth, rich, max_issue, max_frag):
                         letters.append(["A", T30])
                 letters.append(["PC"])
                 letters.append(["PE"])
+                letters.append(["PE", 1])
+                if rich:
+                    letters.append(["PC", 1])
+                    letters.append(["LC", i, 1])
                 letters.append(["LC", i])
             for ev in letters:
                 m = dict(frag=meta["frag"] + (ev[0] == "F"), lastA=ev[0] == "A",
@@ -544,7 +707,7 @@ def gen_random(r, n, maxlen):
             elif x < 0.96 and issued and (not calm or r.random() < 0.3):
                 h.append(["C", r.randrange(issued)])
             elif x < 0.975 and not calm:
-                h.append(r.choice([["PC"], ["PE"], ["LC", i]]))
+                h.append(r.choice([["PC"], ["PE"], ["LC", i], ["PE", 1], ["PC", 1], ["LC", i, 1]]))
                 closed_at = closed_at if closed_at is not None else i
             elif x < 0.985 and not calm:
                 h.append(["D", [["O", 10 * i]]])
@@ -571,6 +734,11 @@ DIRECTED = [
     (1, [["I"], ["F", 2], ["A", T30], ["D", [["H", 1]]], ["I"]]),
     (1, [["I"], ["I"], ["F", 0], ["PE"], ["D", [["H", 1]]]]),
     (1, [["I"], ["LC", 0], ["I"]]),
+    (1, [["I"], ["I"], ["PE", 1], ["I"], ["A", T30]]),
+    (1, [["I"], ["I"], ["PC", 1], ["I"]]),
+    (1, [["I"], ["I"], ["LC", 0, 1], ["I"]]),
+    (1, [["I"], ["A", 100], ["LC", 1, 1]]),
+    (2, [["I"], ["I"], ["I"], ["F", 1], ["PE", 1], ["D", [["H", 1]]], ["I"]]),
     (1, [["I"], ["I"], ["A", 7], ["LC", 1], ["I"], ["A", T30]]),
     (2, [["I"], ["I"], ["I"], ["D", [["H", 1]]], ["LC", 0], ["D", [["H", 2]]], ["I"]]),
     (1, [["I"], ["C", 0], ["LC", 0], ["I"]]),
@@ -688,7 +856,7 @@ def run(ctx):
                    "delivered (i.e. at least one output was produced)")
     viols = []
     import vloop
-    st = vloop.selftest()
+    st = vloop.selftest() + buf_selftest()
     if not all(row[1] for row in st):
         viols.append(violation("vloop-selftest", "MemTransport deviates from the real selector transport: %r"
                                % [row for row in st if not row[1]][:2], False))
@@ -720,7 +888,7 @@ def run(ctx):
         cov.extra["exhaustive_part"] = exh_info
         cov.extra["exhaustive_alphabet"] = (
             "open: I (<= max_issue callers), D[H], D[E], F (<= max_frag), C r for every pending r and one completed r, "
-            "A 1 s, A 29 s (quick: never two A in a row), PC, PE, LC (local close() by another task)"
+            "A 1 s, A 29 s (quick: never two A in a row), PC, PE, PE with unsent request bytes, LC (local close() by another task)"
             + "; rich alphabet (thorough, see exhaustive_part) adds D[H,H], D[E,H], D[H,E], D[O], A 30 s and consecutive A"
             + "; after the transport closed: at most two more events from {I, D[H], A 30 s}; every history is followed by 31 s of silence")
         n_rand = 2000 if tier == "quick" else 120000
